@@ -10,6 +10,7 @@ replace github.com/coreos/bbolt => go.etcd.io/bbolt v1.3.5
 
 require (
 	github.com/andybalholm/brotli v1.0.3
+	github.com/dustin/go-humanize v1.0.0
 	github.com/golang/groupcache v0.0.0-20210331224755-41bb18bfe9da
 	github.com/golang/snappy v0.0.3
 	github.com/klauspost/compress v1.13.1
